@@ -12,6 +12,8 @@
 (*   Frame         objects that are not documented targets have the same content digest before/after  *)
 (*   Memo          a call whose key (callable, parameters, content digests of the arguments) was seen   *)
 (*                 before returns the same result digest (history variable memo)                        *)
+(*                 - the trace is the union of two recordings of the same sessions, the second made by   *)
+(*                 a fresh process in reverse session order, so memo ranges over HISTORIES of the library *)
 (*   RngIsolation  det/seeded calls leave numpy's global generator state unchanged                      *)
 (*   Continuity    nothing changes between calls (soundness of the recording itself)                    *)
 (* Verdicts are total: a failing event is appended to `bad` with the clause name and checking goes on  *)
